@@ -29,7 +29,25 @@ def main():
         seed = int(os.environ.get("VERIF_SEED", "0"))
     except ValueError:
         pass
-    sys.exit(mod.main(a.tier, seed))
+    try:
+        rc = mod.main(a.tier, seed)
+    except Exception:
+        # Nothing a check does may end in a bare Python exit status 1 (that would read as a violation
+        # without a replay file).  A driver that aborted outside a guarded region (sanitizer report,
+        # assert, DWGREP_VERIF hook) is an implementation failure on a generated input: report it as
+        # such.  Anything else is a harness error.
+        import traceback
+        from .harness import write_replay
+        tb = traceback.format_exc()
+        crashed = "DriverCrash" in tb and any(k in tb for k in ("rc=-6", "rc=-11", "AddressSanitizer", "runtime error:", "DWGREP_VERIF", "Assertion"))
+        sys.stderr.write(tb)
+        if crashed:
+            path = write_replay(pid, {"property": pid, "reason": "driver crashed outside a guarded region", "traceback": tb[-6000:]})
+            print("VIOLATION property=%s replay=%s" % (pid, path))
+            sys.exit(1)
+        sys.stderr.write("%s: HARNESS ERROR (not a violation): unexpected exception\n" % pid)
+        sys.exit(2)
+    sys.exit(rc)
 
 
 if __name__ == "__main__":
